@@ -391,6 +391,34 @@ fn conv_lef_raw_lef(src: &mut Src) -> Result<(String, usize), String> {
         }
         m.obs.iter_mut().for_each(keep);
     }
+    // a port may come back to a layer it has drawn on already (a second LAYER statement for the same layer)
+    for m in lib.macros.iter_mut() {
+        for p in m.pins.iter_mut() {
+            for q in p.ports.iter_mut() {
+                if !q.layers.is_empty() && src.prob(1, 4) {
+                    let mut again = q.layers[0].clone();
+                    again.geometries.reverse();
+                    if let Some(g) = q.layers.last().and_then(|l| l.geometries.first()).cloned() {
+                        again.geometries.push(g);
+                    }
+                    q.layers.push(again);
+                }
+            }
+        }
+    }
+    // pins that must be joined name each other (MUSTJOIN, mutually, as the manual's examples do)
+    for m in lib.macros.iter_mut() {
+        if m.pins.len() >= 2 && src.prob(1, 4) {
+            let n = m.pins.len() & !1;
+            for k in (0..n).step_by(2) {
+                let (a, b) = (m.pins[k].name.clone(), m.pins[k + 1].name.clone());
+                if a != b {
+                    m.pins[k].must_join = Some(b);
+                    m.pins[k + 1].must_join = Some(a);
+                }
+            }
+        }
+    }
     // a stacked pin (a power rail): the very same geometries drawn on two or three layers
     for m in lib.macros.iter_mut() {
         for p in m.pins.iter_mut() {
